@@ -33,7 +33,16 @@ io::buffer::metatype *io::buffer::metatype::create(const array *arr)
 	private:
 		refcount _ref;
 	};
-	return arr ? new meta_buffer(*arr) : new meta_buffer(array(0));
+	if (!arr) {
+		return new meta_buffer(array(0));
+	}
+	meta_buffer *mb = new meta_buffer(*arr);
+	// reference to source buffer may have been refused
+	if (arr->data() && !mb->_d.data()) {
+		delete mb;
+		return 0;
+	}
+	return mb;
 }
 // convertable interface
 int io::buffer::metatype::convert(type_t type, void *ptr)
